@@ -53,67 +53,75 @@ def build(tier="quick", seed=0):
     b.functions[worker.key] = worker.info()
     this_run, idx, total = sp.Symbol("this_run_num", integer=True), S("run_indicies"), sp.Symbol("total_runs_to_do", integer=True)
     enclosing_run_num = sp.Symbol("enclosing_scope_run_num", integer=True)
-    for avoid in (True, False):
-        for fails in ((False, True) if avoid else (False,)):
-            fs = GhostFS()
-            genv = fs.shims()
-            result_obj = {"value": R("study_result")}
+    # what an earlier, interrupted attempt at the same case may have left in its directory (kill points of the worker): nothing; the directory; the
+    # directory and a result file cut off inside the write; the directory and a complete result file without the marker
+    LEFT = {"fresh": {}, "dir_only": {"_run_this_run_num": "dir"}, "partial_results": {"_run_this_run_num": "dir", "mp_results.npz": "partial"},
+            "results_no_marker": {"_run_this_run_num": "dir", "mp_results.npz": "complete"}}
+    for left_name, left in LEFT.items():
+        for avoid in (True, False):
+          for fails in ((False, True) if avoid else (False,)):
+              if left_name != "fresh" and fails:
+                  continue
+              fs = GhostFS(initial=left)
+              genv = fs.shims()
+              result_obj = {"value": R("study_result")}
 
-            def study(ex, node, run_dir, *a, **k):
-                if fails:
-                    from tpv.symex import _Raise, Raised
-                    raise _Raise(Raised("Exception", ("study function raised",)))
-                return result_obj
-            genv.update(dict(mp_log_path="LOG", dir_to_use="DIR", avoid_crashes=avoid, study_function=study, run_num=enclosing_run_num,
-                             warnings=Namespace("warnings", {"warn": lambda ex, node, *a, **k: None}),
-                             MultiprocessingOutput=lambda ex, node, **k: dict(k)))
-            ex = HeapExec(worker, globals_env=genv, opts=dict(definedness=False, check_feasibility=False))
-            try:
-                paths = ex.run(dict(this_run_num=this_run, run_indicies=idx, total_runs_to_do=total))
-            except SymExError as e:
-                b.subset_exits.append(f"{worker.key} [avoid_crashes={avoid}, study fails={fails}]: {e}")
-                continue
-            tag = f"[avoid_crashes={int(avoid)};study_raises={int(fails)}]"
-            for i, p in enumerate(paths):
-                if p.outcome == "raise":
-                    if not avoid and fails:
-                        continue
-                    b.add(Obligation(oid=f"{worker.key}::noraise{tag}@path{i}", fn=worker.key, clause="worker does not raise when the study function returns (or crashes are shielded)",
-                                     goal=sp.false, hyps=p.hyps, meta=dict(raised=repr(p.value))))
-                    continue
-                rec = p.value
-                ok_shape = isinstance(rec, dict) and {"case_number", "input_index", "result"} <= set(rec)
-                if not ok_shape:
-                    ground(b, f"{worker.key}::record_shape{tag}", worker.key, "worker returns a MultiprocessingOutput(case_number, input_index, result)", False, detail=str(rec)[:100])
-                    continue
-                b.add(Obligation(oid=f"{worker.key}::ensures:own_case_number{tag}", fn=worker.key,
-                                 clause="ensures record.case_number == this_run_num (the worker's own first argument, not a variable of the enclosing scope)",
-                                 goal=sp.Eq(sp.sympify(rec["case_number"]), this_run), hyps=p.hyps))
-                b.add(Obligation(oid=f"{worker.key}::ensures:own_grid_index{tag}", fn=worker.key, clause="ensures record.input_index == run_indicies (its own second argument)",
-                                 goal=sp.Eq(sp.sympify(rec["input_index"]), idx), hyps=p.hyps))
-                # ghost file state: walk the event list; after every event  marker exists ==> results exist
-                exists = set()
-                bad_at = None
-                for k, (kind, path) in enumerate(fs.events):
-                    if kind.startswith("open:w") or kind in ("savez", "makedirs"):
-                        exists.add(path)
-                    marker = any(x.endswith("mp_success.log") for x in exists)
-                    results = any(x.endswith("mp_results.npz") for x in exists)
-                    if marker and not results and bad_at is None:
-                        bad_at = (k, kind, path)
-                ground(b, f"{worker.key}::invariant:marker_implies_results{tag}", worker.key,
-                       "at every statement boundary of the worker: exists(mp_success.log) ==> exists(mp_results.npz)  (a kill between the two writes must not leave a marked case without its result)",
-                       bad_at is None, detail=f"events: {fs.events}" if bad_at else "", refuted_model=None if bad_at is None else {"kill_point": f"after event #{bad_at[0]} {bad_at[1]} {bad_at[2]}"})
-                if not fails:
-                    wrote = any(k == "savez" and pth.endswith("mp_results.npz") for k, pth in fs.events) and any(pth.endswith("mp_success.log") for k, pth in fs.events)
-                    ground(b, f"{worker.key}::ensures:successful_case_persisted{tag}", worker.key, "a successful case writes both its result file and its success marker", wrote, detail=str(fs.events))
-                else:
-                    nomark = not any(pth.endswith("mp_success.log") for k, pth in fs.events)
-                    ground(b, f"{worker.key}::ensures:failed_case_unmarked{tag}", worker.key, "a failed case leaves no success marker (it is re-run on restart)", nomark, detail=str(fs.events))
+              def study(ex, node, run_dir, *a, **k):
+                  if fails:
+                      from tpv.symex import _Raise, Raised
+                      raise _Raise(Raised("Exception", ("study function raised",)))
+                  return result_obj
+              genv.update(dict(mp_log_path="LOG", dir_to_use="DIR", avoid_crashes=avoid, study_function=study, run_num=enclosing_run_num,
+                               warnings=Namespace("warnings", {"warn": lambda ex, node, *a, **k: None}),
+                               MultiprocessingOutput=lambda ex, node, **k: dict(k)))
+              ex = HeapExec(worker, globals_env=genv, opts=dict(definedness=False, check_feasibility=False))
+              try:
+                  paths = ex.run(dict(this_run_num=this_run, run_indicies=idx, total_runs_to_do=total))
+              except SymExError as e:
+                  b.subset_exits.append(f"{worker.key} [avoid_crashes={avoid}, study fails={fails}]: {e}")
+                  continue
+              tag = f"[avoid_crashes={int(avoid)};study_raises={int(fails)}]" + ("" if left_name == "fresh" else f"[left_behind={left_name}]")
+              for i, p in enumerate(paths):
+                  if p.outcome == "raise":
+                      if not avoid and fails:
+                          continue
+                      b.add(Obligation(oid=f"{worker.key}::noraise{tag}@path{i}", fn=worker.key, clause="worker does not raise when the study function returns (or crashes are shielded)",
+                                       goal=sp.false, hyps=p.hyps, meta=dict(raised=repr(p.value))))
+                      continue
+                  rec = p.value
+                  ok_shape = isinstance(rec, dict) and {"case_number", "input_index", "result"} <= set(rec)
+                  if not ok_shape:
+                      ground(b, f"{worker.key}::record_shape{tag}", worker.key, "worker returns a MultiprocessingOutput(case_number, input_index, result)", False, detail=str(rec)[:100])
+                      continue
+                  b.add(Obligation(oid=f"{worker.key}::ensures:own_case_number{tag}", fn=worker.key,
+                                   clause="ensures record.case_number == this_run_num (the worker's own first argument, not a variable of the enclosing scope)",
+                                   goal=sp.Eq(sp.sympify(rec["case_number"]), this_run), hyps=p.hyps))
+                  b.add(Obligation(oid=f"{worker.key}::ensures:own_grid_index{tag}", fn=worker.key, clause="ensures record.input_index == run_indicies (its own second argument)",
+                                   goal=sp.Eq(sp.sympify(rec["input_index"]), idx), hyps=p.hyps))
+                  # ghost file state: walk the event list; after every event  marker exists ==> results exist
+                  exists = set()
+                  bad_at = None
+                  for k, (kind, path) in enumerate(fs.events):
+                      if kind.startswith("open:w") or kind in ("savez", "makedirs"):
+                          exists.add(path)
+                      marker = any(x.endswith("mp_success.log") for x in exists)
+                      results = any(x.endswith("mp_results.npz") for x in exists)
+                      if marker and not results and bad_at is None:
+                          bad_at = (k, kind, path)
+                  ground(b, f"{worker.key}::invariant:marker_implies_results{tag}", worker.key,
+                         "at every statement boundary of the worker: exists(mp_success.log) ==> exists(mp_results.npz)  (a kill between the two writes must not leave a marked case without its result)",
+                         bad_at is None, detail=f"events: {fs.events}" if bad_at else "", refuted_model=None if bad_at is None else {"kill_point": f"after event #{bad_at[0]} {bad_at[1]} {bad_at[2]}"})
+                  if not fails:
+                      wrote = any(k == "savez" and pth.endswith("mp_results.npz") for k, pth in fs.events) and any(pth.endswith("mp_success.log") for k, pth in fs.events)
+                      ground(b, f"{worker.key}::ensures:successful_case_persisted{tag}", worker.key, "a successful case writes both its result file and its success marker", wrote, detail=str(fs.events))
+                  else:
+                      nomark = not any(pth.endswith("mp_success.log") for k, pth in fs.events)
+                      ground(b, f"{worker.key}::ensures:failed_case_unmarked{tag}", worker.key, "a failed case leaves no success marker (it is re-run on restart)", nomark, detail=str(fs.events))
     journal(b, parent, seed, tier)
     journal_atomicity(b, parent)
     restart_scan(b, parent)
     reload_indices(b, parent, seed, tier)
+    b.replayer(f"{worker.key}::*left_behind*", _replay_left_behind)
     b.replayer(f"{worker.key}::*", _replay_worker)
     b.replayer(f"{FMP}::multiprocessing_run#journal_creation*", _replay_journal_kill)
     b.replayer(f"{FMP}::multiprocessing_run#*", _replay_restart)
@@ -397,16 +405,52 @@ def restart_scan(b, parent):
                 bad.append((present, f"skipped={skipped}"))
     ground(b, f"{key}::skip_iff_marker", key, f"for every combination of presence of the files the scan asks about ({sorted(files)}): the case is skipped iff its success marker exists", not bad,
            detail=f"{n} combinations" if not bad else str(bad[:3]), refuted_model=dict(files_present=str(bad[0][0]), outcome=bad[0][1]) if bad else None, exhaustive=True)
-    # entries that are not case directories never put a case on the skip list
+    # entries that are not case directories never put a case on the skip list.  What such an entry may contain is read off the function itself: every
+    # file it writes (open(..., 'w'/'a'), np.save*, os.makedirs) below a sub-directory of the study directory that is not a case directory
+    joins = {}
+    for n_ in ast.walk(node):
+        if isinstance(n_, ast.Assign) and len(n_.targets) == 1 and isinstance(n_.targets[0], ast.Name) and isinstance(n_.value, ast.Call) and ast.unparse(n_.value.func) == "os.path.join" \
+                and len(n_.value.args) == 2 and isinstance(n_.value.args[1], ast.Constant) and isinstance(n_.value.args[1].value, str):
+            joins[n_.targets[0].id] = (ast.unparse(n_.value.args[0]), n_.value.args[1].value)
+    written = set()
+    for n_ in ast.walk(node):
+        if isinstance(n_, ast.Call) and n_.args:
+            f_ = ast.unparse(n_.func)
+            is_write = (f_ == "open" and len(n_.args) >= 2 and isinstance(n_.args[1], ast.Constant) and str(n_.args[1].value)[:1] in ("w", "a")) or f_ in ("np.save", "np.savez", "np.savez_compressed")
+            if is_write and isinstance(n_.args[0], ast.Name) and n_.args[0].id in joins:
+                base, leaf = joins[n_.args[0].id]
+                if base in joins and joins[base][0] == "dir_to_use":        # a file inside a named sub-directory of the study directory
+                    written.add((joins[base][1], leaf))
+    extra_entries = sorted({d_ for d_, _ in written})
+
+    def mk_os2(entry, leaves):
+        class P:
+            @staticmethod
+            def join(*a):
+                return "/".join(a)
+
+            @staticmethod
+            def isfile(path):
+                return path.startswith(f"DIR/{entry}/") and path.split("/")[-1] in leaves
+
+            @staticmethod
+            def isdir(path):
+                return path == f"DIR/{entry}"
+
+        class O:
+            path = P
+        return O
     bad = []
-    for entry in ("tpy_mp.log", "viscosity.npy", "post_processing"):
+    for entry in ["tpy_mp.log", "viscosity.npy", "post_processing"] + extra_entries:
+        leaves = set() if entry in ("tpy_mp.log", "viscosity.npy") else {l_ for d_, l_ in written if d_ == entry}      # plain files contain nothing
         try:
-            skipped, _ = ns["_scan"](entry, "DIR", [], 0, mk_os({"mp_success.log"}))
+            # the scan arrives at this entry with the case number of the entry listed before it (an UNFINISHED case 5): it must not end up skipped
+            skipped, _ = ns["_scan"](entry, "DIR", [], 5, mk_os2(entry, leaves))
             if skipped:
-                bad.append((entry, skipped))
+                bad.append((entry, sorted(leaves), skipped))
         except Exception as e:
-            bad.append((entry, f"raised {type(e).__name__}: {e}"))
-    ground(b, f"{key}::other_entries_ignored", key, "directory entries that are not case directories (journal, saved grids, post-processing) do not put a case on the skip list", not bad, detail=str(bad)[:200],
+            bad.append((entry, sorted(leaves), f"raised {type(e).__name__}: {e}"))
+    ground(b, f"{key}::other_entries_ignored", key, "directory entries that are not case directories (journal, saved grids, post-processing with every file the function itself writes there) do not put a case on the skip list", not bad, detail=str(bad)[:200],
            refuted_model=dict(entry=str(bad[0])) if bad else None)
 
 
@@ -461,13 +505,29 @@ def reload_indices(b, parent, seed, tier):
 
         @staticmethod
         def load(path):
+            loaded_paths.append(path)
             return ("loaded", path)
 
     class OS:
         class path:
             join = staticmethod(lambda *a: "/".join(a))
+    # the directory the WORKER writes a case into (statement of the real closure) - the reload must look into exactly that directory, for every case number
+    loaded_paths = []
+    worker_dir = worker_file = None
+    wk = [n_ for n_ in ast.walk(node) if isinstance(n_, ast.FunctionDef) and n_.name == "func_to_use"]
+    if len(wk) == 1:
+        a_dir = [n_ for n_ in ast.walk(wk[0]) if isinstance(n_, ast.Assign) and len(n_.targets) == 1 and isinstance(n_.targets[0], ast.Name)
+                 and "os.path.join(dir_to_use" in ast.unparse(n_.value) and "_run_" in ast.unparse(n_.value)]
+        saves = [n_ for n_ in ast.walk(wk[0]) if isinstance(n_, ast.Call) and ast.unparse(n_.func) in ("np.savez", "np.savez_compressed", "np.save") and n_.args]
+        if len(a_dir) == 1 and len(saves) == 1:
+            worker_dir_name = a_dir[0].targets[0].id
+            worker_dir = compile(ast.Expression(a_dir[0].value), "worker_dir", "eval")
+            arg0 = saves[0].args[0]
+            joins_w = {n_.targets[0].id: n_.value for n_ in ast.walk(wk[0]) if isinstance(n_, ast.Assign) and len(n_.targets) == 1 and isinstance(n_.targets[0], ast.Name)}
+            worker_file = compile(ast.Expression(joins_w[arg0.id] if isinstance(arg0, ast.Name) and arg0.id in joins_w else arg0), "worker_file", "eval")
     rnd = random.Random(seed)
     bad, n = [], 0
+    path_bad, path_checked = [], 0
     for rep in range(12 if tier == "quick" else 80):
         dims = rnd.randint(1, 3)
         inputs = []
@@ -483,6 +543,7 @@ def reload_indices(b, parent, seed, tier):
         try:
             cases0, _, _, arrays = ns["_run"](inputs, [], "DIR", NP(), OS, ns["find_nearest"])
             own = {c[0]: tuple(int(i) for i in c[1]) for c in cases0}
+            own_raw = {c[0]: c[1] for c in cases0}          # what the worker receives (and formats into the directory name)
             total = len(cases0)
             skip = sorted(rnd.sample(range(total), max(1, total // 3)))
             cases1, skipped, prev, _ = ns["_run"](inputs, list(skip), "DIR", NP(), OS, ns["find_nearest"])
@@ -490,6 +551,21 @@ def reload_indices(b, parent, seed, tier):
             bad.append((rep, f"raised {type(e).__name__}: {e}"))
             continue
         n += 1
+        if worker_dir is not None:
+            for k_ in skip:
+                envw = dict(os=OS, dir_to_use="DIR", this_run_num=k_, run_indicies=own_raw[k_], run_num=k_, total_n=total, char_n_total=len(str(total)), np=np)
+                try:
+                    envw[worker_dir_name] = eval(worker_dir, envw)
+                    want_path = eval(worker_file, envw)
+                except Exception as e:
+                    path_bad.append((rep, f"cannot evaluate the worker's path expression: {type(e).__name__}: {e}"))
+                    break
+                path_checked += 1
+                mine = [p_ for p_ in loaded_paths if p_ == want_path or p_ == want_path + ".npz" or p_ + ".npz" == want_path]
+                if not mine:
+                    path_bad.append((rep, f"case {k_} of {total}: the worker writes {want_path!r}; the reload opens {[p_ for p_ in loaded_paths if ('_run_%d' % k_) in p_ or p_.endswith('_%d/mp_results.npz' % k_)][:2] or loaded_paths[:2]}"))
+                    break
+        loaded_paths.clear()
         rep_idx = {}
         for rec in prev:
             rep_idx[int(rec[0])] = tuple(int(i) for i in rec[1])
@@ -502,6 +578,15 @@ def reload_indices(b, parent, seed, tier):
     ground(b, f"{key}::own_index_on_reload", key, "BOUNDED: every reloaded case carries the grid index the case builder assigns to its case number; the cases queued for execution are exactly the non-skipped ones", not bad,
            detail=f"{n} generated studies (1-3 dimensions, must_include as list / tuple of 0-3 values, linear / log)" if not bad else str(bad[:2]),
            refuted_model=dict(example=str(bad[0])) if bad else None, bounded=True)
+    if worker_dir is None:
+        structural(b, f"{key}::reload_path_is_worker_path", key, "the worker's case-directory statement and result-file call are recognised", "unknown", detail="func_to_use: `<dir> = os.path.join(dir_to_use, f'..._run_...')` / np.savez(...) not found")
+    else:
+        undecided = [x_ for x_ in path_bad if "cannot evaluate" in x_[1]]
+        if undecided:
+            b.subset_exits.append(f"{key}: {undecided[0][1]}")
+        else:
+            ground(b, f"{key}::reload_path_is_worker_path", key, "BOUNDED: for every completed case of every generated study (1 to 100+ cases) the reload opens exactly the result file the worker of the same source writes for that case number and grid index",
+                   not path_bad, detail=f"{path_checked} cases" if not path_bad else str(path_bad[:2]), refuted_model=dict(example=str(path_bad[0])) if path_bad else None, bounded=True)
     b.bounded.append(dict(name="restart: grid construction + case builder + reload loop (extracted statements executed concretely with numpy)", bound=f"{n} generated studies", evaluations=n,
                           passed=n - len(bad), counted_as_proved=False))
 
@@ -517,6 +602,9 @@ def study(run_dir, a, b_, a_name=None, b_name=None):
     if os.path.exists(os.path.join(BASE, "FAIL")) and int(run_dir.split("_run_")[-1]) % 4 == 1:
         raise RuntimeError("injected")
     return {"v": np.asarray([a * 10 + b_])}
+def post(post_dir, results, *a, **k):
+    with open(os.path.join(BASE, "post_calls.txt"), "a") as f:
+        f.write("%d\\n" % len(results))
 fails = []
 base = tempfile.mkdtemp()
 BASE = base
@@ -526,12 +614,12 @@ try:
     open(os.path.join(base, "calls.txt"), "w").close()
     refd = {int(r[0]): (tuple(int(i) for i in r[1]), float(r[2]["v"][0])) for r in ref}
     open(os.path.join(base, "FAIL"), "w").close()
-    r1 = multiprocessing_run(os.path.join(base, "study"), "study", study, inputs, max_procs=2, allow_low_procs=True, verbose=False, avoid_crashes=True, force_restart=False)
+    r1 = multiprocessing_run(os.path.join(base, "study"), "study", study, inputs, postprocess_func=post, max_procs=2, allow_low_procs=True, verbose=False, avoid_crashes=True, force_restart=False)
     if not [x for x in r1 if x[2] is None]: fails.append("scenario broken: no case failed in the interrupted run")
     os.remove(os.path.join(base, "FAIL"))
     for attempt in (2, 3):
         open(os.path.join(base, "calls.txt"), "w").close()
-        r = multiprocessing_run(os.path.join(base, "study"), "study", study, inputs, max_procs=2, allow_low_procs=True, verbose=False, avoid_crashes=True, force_restart=False)
+        r = multiprocessing_run(os.path.join(base, "study"), "study", study, inputs, postprocess_func=post, max_procs=2, allow_low_procs=True, verbose=False, avoid_crashes=True, force_restart=False)
         got = {}
         for rec in r:
             k = int(rec[0]); got.setdefault(k, []).append((tuple(int(i) for i in rec[1]), float(rec[2]["v"][0]) if rec[2] is not None else None))
@@ -553,7 +641,7 @@ import os, shutil, sys, numpy as np, warnings, tempfile
 warnings.filterwarnings('ignore')
 import TidalPy.utilities.multiprocessing.multiprocessing as mpmod
 from TidalPy.utilities.multiprocessing import multiprocessing_run, MultiprocessingInput
-def study(run_dir, a, b_):
+def study(run_dir, a, b_, *names):
     return dict(v=np.asarray(a * 10 + b_))
 inputs = (MultiprocessingInput('a', 'A', 0., 2., 'linear', (), 3), MultiprocessingInput('b', 'B', 0., 1., 'linear', (0.5,), 2))
 base = tempfile.mkdtemp(prefix="tpv_c18_kill_")
@@ -563,7 +651,7 @@ def run(d):
 out = []
 try:
     ref = run(os.path.join(base, "ref"))
-    for k in range(0, 8):
+    for k in (0, 1, 3, 4, 5):          # (more than ~16 studies in one process exhaust the pool's resources: unrelated to the journal)
         d = os.path.join(base, f"kill{k}")
         count = {"n": 0}
         real_open = open
@@ -603,9 +691,60 @@ result = out
 def _replay_journal_kill(ob, res):
     from tpv import native
     out = native.run(dict(code=_KILL_JOURNAL), timeout=1200)
-    rec = dict(replayed=True, native=out, what="simulated kill (exception out of the k-th write to the journal, k = 0..7, file flushed as an OS would leave it), then the same call again on the same directory: must complete with the 9 results of the uninterrupted study")
+    rec = dict(replayed=True, native=out, what="simulated kill (exception out of the k-th write to the journal, k in {0, 1, 3, 4, 5}, file flushed as an OS would leave it), then the same call again on the same directory: must complete with the 9 results of the uninterrupted study")
     try:
         rec["confirmed"] = any(not row[3] for row in out["result"])
+    except Exception:
+        rec["confirmed"] = "exception" in out
+    return rec
+
+
+_LEFT_BEHIND = r'''
+import os, shutil, tempfile, glob, numpy as np, warnings
+warnings.filterwarnings('ignore')
+from TidalPy.utilities.multiprocessing import multiprocessing_run, MultiprocessingInput
+def study(run_dir, a, b_, *names):
+    return dict(v=np.asarray(a * 10 + b_))
+inputs = (MultiprocessingInput('a', 'A', 0., 2., 'linear', (), 3), MultiprocessingInput('b', 'B', 0., 1., 'linear', (0.5,), 2))
+base = tempfile.mkdtemp(prefix="tpv_c18_left_")
+out = {}
+try:
+    run = lambda d: multiprocessing_run(d, "s", study, inputs, max_procs=2, allow_low_procs=True, verbose=False, avoid_crashes=True, force_restart=False, perform_memory_check=False)
+    for name in (args["name"],):
+        d = os.path.join(base, name)
+        ref = run(d)
+        want = sorted((int(r[0]), float(np.asarray(r[2]["v"]))) for r in ref)
+        case = sorted(glob.glob(os.path.join(d, "index_*_run_4")))[0]
+        os.remove(os.path.join(case, "mp_success.log"))
+        res = os.path.join(case, "mp_results.npz")
+        if name == "dir_only":
+            os.remove(res)
+        elif name == "partial_results":
+            data = open(res, "rb").read(); open(res, "wb").write(data[:max(8, len(data) // 3)])
+        try:
+            r = run(d)
+            got = sorted((int(x[0]), float(np.asarray(x[2]["v"]))) for x in r) if r is not None else None
+            out[name] = "ok" if got == want else "differs: %s" % (str(got)[:120])
+        except BaseException as e:
+            out[name] = "RAISED %s: %s" % (type(e).__name__, str(e)[:80])
+finally:
+    shutil.rmtree(base, ignore_errors=True)
+result = out
+'''
+
+
+def _replay_left_behind(ob, res):
+    from tpv import native
+    out = {"result": {}}
+    for nm in ("dir_only", "partial_results", "results_no_marker"):       # one process per scenario (a long-lived process runs out of pool resources)
+        o_ = native.run(dict(code=_LEFT_BEHIND, args=dict(name=nm)), timeout=900)
+        if "result" in o_ and isinstance(o_["result"], dict):
+            out["result"].update(o_["result"])
+        else:
+            out["result"][nm] = str(o_)[:200]
+    rec = dict(replayed=True, native=out, what="a finished study; case 4 is put back into the state a kill would leave (directory only / result file cut off / result file without marker); the same call again must complete with the results of the uninterrupted study")
+    try:
+        rec["confirmed"] = any(v_ != "ok" for v_ in out["result"].values())
     except Exception:
         rec["confirmed"] = "exception" in out
     return rec
